@@ -19,7 +19,7 @@ import re
 from harness import core
 
 CELLS_Q = [[1, 1], [2, 1], [3, 1], [1, 2]]
-CELLS_T = CELLS_Q + [[3, 2]]
+CELLS_T = CELLS_Q + [[3, 2], [7, 1]]
 ALPHA = ["-", ".", "0", "5", " ", "k", "m", "F", "t"]
 
 UNIT_NAMES = ["meter", "meters", "m", "kilometer", "kilometers", "km", "foot", "feet", "ft",
@@ -43,6 +43,24 @@ def plane_jobs(rng, tier):
         pts = [(x * 7 - 20, y * 3 + 100) for x in range(4) for y in range(5)]
         jobs.append({"kind": "plane", "metric": metric, "scale": 1, "xs": [p[0] for p in pts],
                      "ys": [p[1] for p in pts], "tag": "nonsquare"})
+    # the same lattice with the coordinates passed as python ints, numpy scalars of the signed / float dtypes and
+    # mixed precision (unsigned scalars wrap in x1 - x2 and are outside the documented float domain: notes)
+    pts = [(x, y) for x in (-3, 0, 1, 4) for y in (-2, 0, 5)]
+    for at in ("int", "int8", "int16", "int32", "int64", "float32", "float64", "mixed32", "mixed_int"):
+        for metric in ("E", "M"):
+            jobs.append({"kind": "plane", "metric": metric, "scale": 1, "xs": [p[0] for p in pts],
+                         "ys": [p[1] for p in pts], "argtype": at, "tag": "argtype_" + at})
+    # coordinates that float32 cannot hold (> 2^24) and, as python ints, that float64 cannot hold (> 2^53): the
+    # spec sees the table relative to `base`
+    for at, base in (("float", [16777217, -33554433]), ("float64", [16777217, -33554433]),
+                     ("int", [2 ** 53 + 1, -(2 ** 53) - 3]), ("int64", [2 ** 53 + 1, 2 ** 40 + 1])):
+        for metric in ("E", "M"):
+            jobs.append({"kind": "plane", "metric": metric, "scale": 1, "xs": [p[0] for p in pts],
+                         "ys": [p[1] for p in pts], "argtype": at, "base": base, "tag": "big_coords_" + at})
+    qp = [(x, y) for x in (-6, -1, 0, 3) for y in (-9, 0, 5)]
+    for at in ("float32", "mixed32"):
+        jobs.append({"kind": "plane", "metric": "E", "scale": 4, "xs": [p[0] for p in qp], "ys": [p[1] for p in qp],
+                     "argtype": at, "tag": "argtype_quarters_" + at})
     for t in range(6 if tier == "quick" else 40):
         n = rng.randrange(6, 16)
         sc = rng.choice([1, 2, 8])
@@ -56,7 +74,8 @@ def plane_jobs(rng, tier):
 SPHERE_CORE = [(0, 90), (90, 90), (-180, 90), (0, -90), (135, -90),          # poles, several longitudes
                (180, 0), (-180, 0), (180, 45), (-180, 45), (-180, -30), (180, -30), (179, 0), (-179, 0),
                (0, 0), (10, 20), (-170, -20), (90, 45), (-90, -45), (45, 0), (-135, 0),  # antipodes
-               (0, 1), (1, 0), (1, 1), (-1, 0), (0, 89), (180, 89), (60, -60), (-120, 60)]
+               (0, 1), (1, 0), (1, 1), (-1, 0), (0, 89), (180, 89), (60, -60), (-120, 60),
+               (179, 1), (-179, -1), (-170, -19), (-91, -44), (180, 90), (-180, -90), (180, -90)]  # near-antipodes, corners
 
 
 def sphere_jobs(rng, tier):
@@ -64,6 +83,26 @@ def sphere_jobs(rng, tier):
              "tag": "core"},
             {"kind": "sphere", "lon": [p[0] for p in SPHERE_CORE[:20]], "lat": [p[1] for p in SPHERE_CORE[:20]],
              "radius": 1000000.0, "tag": "core_radius_1e6"}]
+    # argument types: python ints, numpy scalars of every dtype (unsigned: the non-negative quadrant), mixed
+    signed = SPHERE_CORE[:5] + SPHERE_CORE[5:9] + SPHERE_CORE[13:20] + SPHERE_CORE[-7:]
+    quad = [(0, 90), (90, 90), (180, 90), (180, 0), (0, 0), (10, 20), (90, 45), (45, 0), (0, 1), (1, 0), (179, 1),
+            (0, 89), (180, 89), (60, 60), (180, 45)]
+    small = [(0, 90), (90, 90), (-120, 90), (0, -90), (100, -90), (0, 0), (10, 20), (120, 0), (-60, 0), (127, 45),
+             (-127, -45), (1, 1), (0, 89)]
+    for at in ("int", "int16", "int32", "int64", "float32", "float64", "mixed32", "mixed_int"):
+        jobs.append({"kind": "sphere", "lon": [p[0] for p in signed], "lat": [p[1] for p in signed],
+                     "argtype": at, "tag": "argtype_" + at})
+    for at in ("uint8", "uint16", "uint32", "uint64"):
+        jobs.append({"kind": "sphere", "lon": [p[0] for p in quad], "lat": [p[1] for p in quad],
+                     "argtype": at, "tag": "argtype_" + at})
+    jobs.append({"kind": "sphere", "lon": [p[0] for p in small], "lat": [p[1] for p in small], "argtype": "int8",
+                 "tag": "argtype_int8"})
+    # tenths of a degree: pairs across the antimeridian, near-antipodal pairs, next to the poles
+    tenths = [(1799, 0), (-1799, 0), (1800, 0), (-1800, 0), (1, 1), (-1799, -1), (1799, -1), (0, 899), (1800, 899),
+              (0, 900), (777, 900), (0, -899), (1234, -456), (-566, 456), (-1, 0), (1799, 1), (900, 0), (-900, 0)]
+    for at in (None, "float32"):
+        jobs.append({"kind": "sphere", "lon": [p[0] for p in tenths], "lat": [p[1] for p in tenths], "sc": 10,
+                     "argtype": at, "tag": "tenths_%s" % at})
     for t in range(3 if tier == "quick" else 25):
         n = rng.randrange(10, 22 if tier == "quick" else 34)
         pts = []
@@ -93,24 +132,46 @@ def range_jobs(rng):
                 else:
                     vals.append(tab[c][rep % len(tab[c])] if rep == 0 else rng.choice(tab[c]))
             jobs.append({"kind": "range", "cls": list(cls), "vals": vals})
+    # the bounds +-180 / +-90 exactly, in every argument position, for other argument types
+    loni = {1: -181, 2: -180, 3: None, 4: 180, 5: 181}
+    lati = {1: -91, 2: -90, 3: None, 4: 90, 5: 91}
+    for at in ("int", "int16", "float32", "int64"):
+        for cls in itertools.product([1, 2, 3, 4, 5], repeat=4):
+            if at != "int" and rng.random() < 0.6:
+                continue
+            vals = [(loni if k < 2 else lati)[c] if c != 3 else (rng.randrange(-179, 180) if k < 2
+                                                                 else rng.randrange(-89, 90))
+                    for k, c in enumerate(cls)]
+            jobs.append({"kind": "range", "cls": list(cls), "vals": vals, "argtype": at})
     return jobs
 
 
 def kernel_jobs(rng, tier):
     cells = CELLS_Q if tier == "quick" else CELLS_T
     rq = 16 if tier == "quick" else 24
-    hows = ["float", "int", "np", "str"]
+    hows = ["float", "int", "np", "str", "np32", "npint", "int32"]
     jobs = []
     n = 0
     for cx in cells:
         for cy in cells:
             for k in range(1, rq + 1):
                 n += 1
-                jobs.append({"kind": "circle", "cx": cx, "cy": cy, "r": red(k, 4), "how": hows[n % 4]})
+                jobs.append({"kind": "circle", "cx": cx, "cy": cy, "r": red(k, 4), "how": hows[n % 7]})
                 for ki in range(1, k + 1):
                     n += 1
                     jobs.append({"kind": "annulus", "cx": cx, "cy": cy, "r": red(k, 4), "ri": red(ki, 4),
-                                 "how": hows[n % 4]})
+                                 "how": hows[n % 7]})
+    # very elongated cells (1 : 7), radii below a cell, exactly on multiples of either cell size, in between
+    rs = [4, 27, 28, 29, 40, 56, 57, 62, 84]          # quarters: 1, 6.75, 7, 7.25, 10, 14, 14.25, 15.5, 21
+    for cx, cy in (([1, 1], [7, 1]), ([7, 1], [1, 1]), ([1, 2], [7, 2])):
+        for k in rs:
+            n += 1
+            jobs.append({"kind": "circle", "cx": cx, "cy": cy, "r": red(k, 4), "how": hows[n % 7]})
+            for ki in rs:
+                if ki <= k:
+                    n += 1
+                    jobs.append({"kind": "annulus", "cx": cx, "cy": cy, "r": red(k, 4), "ri": red(ki, 4),
+                                 "how": hows[n % 7]})
     # radii given as strings with units (metres = r), large cells
     for rstr, r, cx, cy in (("1.2km", [1200, 1], [500, 1], [250, 1]), ("0.5 km", [500, 1], [100, 1], [125, 1]),
                             ("12ft", [4572, 1250], [1, 1], [1, 2]), ("2 miles", [402336, 125], [1000, 1], [500, 1]),
@@ -139,6 +200,8 @@ def cellsize_jobs():
                      "xs": [0, 2, 4, 6, 8], "ys": [9, 6, 3]})          # descending y, 0.5 x 0.75
         jobs.append({"kind": "cellsize", "mode": "coords", "H": 4, "W": 3, "unit": u, "sc": 1,
                      "xs": [-30, -20, -10], "ys": [100, 103, 106, 109]})
+        jobs.append({"kind": "cellsize", "mode": "coords", "H": 2, "W": 4, "unit": u, "sc": 2,
+                     "xs": [9, 6, 3, 0], "ys": [-1, -8]})               # both axes descending
     return jobs
 
 
@@ -334,7 +397,10 @@ def judge_cases(ctx, cases):
     # metrics
     def key_metric(c, cl, extra):
         which = c.get("metric", "sphere")
-        return "metric:%s:%s" % (which, cl), "table %s" % c["job"].get("tag")
+        at = c["job"].get("argtype")
+        narrow = at and at not in ("float", "int", "int64", "float64", "mixed_int")
+        return "metric:%s:%s%s" % (which, cl, ":argtype=%s" % at if narrow else ""), "table %s%s" % (
+            c["job"].get("tag"), " argtype=%s" % c["job"]["argtype"] if c["job"].get("argtype") else "")
     judge_group(ctx, "Metrics_Judge", by.get("plane", []), ["kind", "metric", "xs", "ys", "obs", "bits"],
                 "plane_tables", key_metric, parallel=4)
     for c in by.get("sphere", []):
@@ -342,9 +408,10 @@ def judge_cases(ctx, cases):
             ctx.violation("metric:sphere:raised-inside-domain", "valid_rejected",
                           {k: c[k] for k in ("lon", "lat")}, c["error"])
     judge_group(ctx, "Metrics_Judge", by.get("sphere", []),
-                ["kind", "lon", "lat", "m", "zero", "bits", "piR", "slack"], "sphere_tables", key_metric, parallel=4)
+                ["kind", "lon", "lat", "m", "zero", "bits", "piR", "slack", "ztol", "sc"], "sphere_tables", key_metric, parallel=4)
     judge_group(ctx, "Metrics_Judge", by.get("range", []), ["kind", "cls", "raised", "finite"], "range_table",
-                lambda c, cl, e: ("great_circle:%s" % cl, "args (x1,x2,y1,y2)=%s" % c["vals"]))
+                lambda c, cl, e: ("great_circle:%s" % cl, "args (x1,x2,y1,y2)=%s%s" % (
+                    c["vals"], " as %s" % c["job"]["argtype"] if c["job"].get("argtype") else "")))
     for c in by.get("plane", []):
         n = len(c["xs"])
         for i, j, k in itertools.combinations(range(n), 3):
